@@ -11,6 +11,7 @@ func propC03(c *Ctx) propInfo {
 	c.floor("E5.codec-pair", 20)
 	c.lossyConversions(excC03Lossy, "tlb", "wallet", "ton", "tl")
 	c.sumAltConsistency("E12.sum-alt", "tlb", "wallet", "abi", "ton")
+	c.wholeCellValues("E14.codec-engine")
 	c.copyLiterals("E12.copy-literal", map[string]string{}, "tlb", "wallet", "ton", "abi")
 	c.floor("E12.copy-literal", 1)
 	c.floor("E12.sum-alt", 5)
